@@ -596,12 +596,13 @@ def lock(tier):
 
 
 def mutex(tier):
-    """C13: programs over {get, get-and-hold, insert, remove, empty, clear, scan}
+    """C13: programs over {get, get-and-hold, insert, remove, empty, clear, scan,
+    scan_from, scan_range}
     on keys {1, 2}; all pairs of two-operation programs (quick), all pairs of
     three-operation programs and all triples of one- and two-operation
     programs (thorough).  All interleavings, no bound."""
     out = []
-    ops = ["g:1", "G:1", "i:1", "r:1", "g:2", "G:2", "i:2", "r:2", "e", "c", "s"]
+    ops = ["g:1", "G:1", "i:1", "r:1", "g:2", "G:2", "i:2", "r:2", "e", "c", "s", "f:1", "f:2", "R:1"]
     init = ["1", "2"]  # key 2 carries a zero-length value
     progs2 = [[a, b] for a in ops for b in ops]
     if tier == "quick":
